@@ -252,6 +252,43 @@ fn check_run(h: &CaseH, c: &RunCase) -> Verdict {
                 if model.meta.name.is_empty() {
                     h.class("unnamed-project");
                 }
+                // the same directory again after an in-place edit of the project file that keeps its length (an
+                // editor saving a changed number): tool and library must both see the new content
+                if let Dir::Generated { .. } = &c.dir {
+                    let pf = dir.join("proyecto.ctehexml");
+                    if let Ok(txt) = std::fs::read_to_string(&pf) {
+                        let tag = "<valorImpulsionAire>";
+                        if let Some(a) = txt.find(tag) {
+                            let start = a + tag.len();
+                            if let Some(len) = txt[start..].find('<') {
+                                let old = &txt[start..start + len];
+                                let new: String = old.chars().rev().enumerate().map(|(i, ch)| if i == 0 && ch.is_ascii_digit() { char::from(b'0' + (ch as u8 - b'0' + 5) % 10) } else { ch }).collect::<Vec<_>>().into_iter().rev().collect();
+                                if new.len() == old.len() && new != old {
+                                    let edited = format!("{}{}{}", &txt[..start], new, &txt[start + len..]);
+                                    if std::fs::write(&pf, &edited).is_ok() {
+                                        let lib2 = catch(|| hulc2model::collect_hulc_data(&dirs, c.use_extra, c.use_extra));
+                                        let mut cmd2 = Command::new(bin("hulc2model"));
+                                        if c.use_extra {
+                                            cmd2.arg("--use-extra");
+                                        }
+                                        cmd2.arg(&dirs).stdin(Stdio::null()).env_remove("RUST_LOG").env_remove("RUST_BACKTRACE");
+                                        if let (Ok(Ok(model2)), Ok(out2)) = (lib2, cmd2.output()) {
+                                            if let Ok(v2) = exactly_one_json(&out2.stdout) {
+                                                if let Ok(t2) = serde_json::from_value::<Model>(v2) {
+                                                    h.class("same-length-rewrite-compared");
+                                                    if let Err(d) = crate::props::model_props::same_model(&t2, &model2) {
+                                                        vfail!("C01:rewritten-project:tool-differs-from-library", "{}: after rewriting one number of the project file in place (same length) the tool's model differs from the library conversion of the same directory: {}", what, d);
+                                                    }
+                                                    vensure!((model2.meta.global_ventilation_l_s.unwrap_or(-1.0) - model.meta.global_ventilation_l_s.unwrap_or(-1.0)).abs() > 1e-6 || !model.meta.is_dwelling, "C01:rewritten-project:library-sees-old-content", "{}: the library conversion after the in-place edit still has the old ventilation flow {:?}", what, model2.meta.global_ventilation_l_s);
+                                                }
+                                            }
+                                        }
+                                    }
+                                }
+                            }
+                        }
+                    }
+                }
                 if !model.walls.is_empty() && !model.windows.is_empty() {
                     h.nontrivial(fp(c));
                 }
@@ -376,7 +413,7 @@ pub fn run(args: &Args) -> ! {
     thor_cases.push(ThorCase { files: vec![by_size[0].clone(), by_size[by_size.len() - 1].clone()], generated: None });
     ctx.run_enum("thor", &thor_cases, true, check_thor);
     ctx.run_prop("thor_generated", ctx.tier().pick(16, 300), || (gb::bld(), 0usize..12).prop_map(move |(b, i)| ThorCase { files: vec![], generated: Some(Box::new(b)) }.with_first(i)), check_thor);
-    for c in ["shipped_and_negative/convertible", "shipped_and_negative/no-project", "generated/convertible", "generated/overrides/windows-only", "generated/overrides/both", "generated/unnamed-project", "thor/output-file-reused"] {
+    for c in ["shipped_and_negative/convertible", "shipped_and_negative/no-project", "generated/convertible", "generated/overrides/windows-only", "generated/overrides/both", "generated/unnamed-project", "generated/same-length-rewrite-compared", "thor/output-file-reused"] {
         ctx.require_class(c);
     }
     ctx.finish()
